@@ -68,6 +68,19 @@ CHECKS = {
          "listed in known_findings.json and modelled as the named deviation RecreateSameVersionABA.",
     technique="TLA+ helper step-machine model + TLC; schedule replay through a gating proxy; TLC trace validation",
     ref="5.4"),
+ "C09": dict(
+    level="model_checking",
+    text="TLC exhaustively checks the event-loop model of the reconcile queue (Queue.tla: priority queue with FIFO ties, "
+         "on-hold set, parked values, reported length, logical clock) for exclusion, single pending delivery per key with "
+         "the latest value, no loss, not-before-requested, length, and redelivery after release under fairness; the retry "
+         "policy (Backoff.tla) for reset/growth. TLC-simulated command sequences drive the real queue (verif facade) in a "
+         "synctest bubble in virtual time, and TLC-generated reconcile outcome sequences (ok/error/panic/requeue with and "
+         "without error/skip) drive a probe QController on the real runtime; both traces are judged by TLC (TraceQueue, "
+         "TraceBackoff: exact requeue intervals, randomised back-off envelope, reset on success).",
+    note="Trusted: TLC, synctest virtual time, the verif facade (type aliases only). Order among simultaneously due items is "
+         "not part of the property; randomised back-off is checked against its envelope only.",
+    technique="TLA+ queue/back-off models + TLC; model-based replay in virtual time; TLC trace validation",
+    ref="5.9"),
 }
 
 NOT_YET = "check not built yet in this round (planned, see DESIGN.md section 5)"
